@@ -11,6 +11,11 @@ CHECKS = {
          'Held on N PRNG-generated sequential histories (every return value, eviction and Stats compared with a reference LRU; evictions validated as necessary and least-recently-used) and on concurrent rounds whose recorded histories are checked per key with porcupine, with limits sampled continuously and the race detector on. Exploration is the right level: the property quantifies over unbounded histories and schedules; runtime monitoring samples them with an input-independent oracle.',
          'Trusts the reference model (harness/cmd/vcheck/c20.go), the sed-generated virtual clock overlay, porcupine, and the race detector. Says nothing about histories not generated; liveness is bounded progress (10 s watchdog + two goroutine dumps).',
          'DESIGN.md §3 C20'),
+ 'C17': ('exploration',
+         'confinement oracle with per-file canaries over generated symlink layouts and hostile paths (runtime monitor at ServeHTTP / ServeMux / SendFile boundary)',
+         'Held on N generated directory trees x request paths: no response contained the canary of an outside file or an outside directory entry, and every 2xx body was (a byte range of) a regular file really inside the root. Exploration: the space of layouts x paths is unbounded; the oracle is input independent, so every generated request is a test.',
+         'Trusts the canary construction (unique random tokens) and os/filepath semantics of the sandbox filesystem. Special files are not generated. The CLI mux is mimicked by an http.ServeMux mounted with the same pattern rule as registerStaticRoutes.',
+         'DESIGN.md §3 C17'),
 }
 NA = {}
 for p in props:
